@@ -27,6 +27,8 @@ PROPS = {
     "C12": {
         "timeouts_not_mine": True,
         "lean_modules": ["Props.C20b", "Props.Gen20", "Props.GenT20", "Props.Gen12", "Props.GenT12", "Props.Gen15", "Props.GenT15"],
+        # which link a typed number opens (and what a failing or slow hook leaves of the number being typed) is what the interface model says
+        "correspondence_is_failure": {"ui": True},
         "groups": [{"name": "render", "quick": 3000, "thorough": 80000}, {"name": "mediaL", "quick": 600, "thorough": 20000, "workers": 12},
                    # numbers typed in the real UI (also while a media hook is running): what the hook is started with
                    {"name": "C07", "quick": 160, "thorough": 4000, "workers": 16},
